@@ -19,11 +19,22 @@ exec(open(os.path.join(ROOT, "tools", "claims.py")).read())
 props = [json.loads(l) for l in open(os.path.join(ROOT, "properties.jsonl")) if l.strip()]
 ids = [p["id"] for p in props]
 
+KF = json.load(open(os.path.join(ROOT, "known_findings.json")))["findings"]
+
+def findings_note(pid):
+    known = sorted(f["id"] for f in KF if f["property"] == pid and f["status"] == "known")
+    fixed = sum(1 for f in KF if f["property"] == pid and f["status"] == "fixed")
+    s = " Findings recorded for this property in known_findings.json: %d repaired in /repo (witnesses replayed on every run)" % fixed
+    if known:
+        s += "; known and not repaired (KNOWN-FINDING lines, exit 0): " + ", ".join(known)
+    return s + ". Section and design_ref: see also DESIGN.md section 8."
+
 checks = []
 for pid in ids:
     if pid not in CLAIMED:
         continue
-    c = CLAIMED[pid]
+    c = dict(CLAIMED[pid])
+    c["note"] = c["note"] + findings_note(pid)
     checks.append({
         "property_id": pid,
         "quick_cmd": "./check %s --tier quick" % pid,
